@@ -17,10 +17,13 @@ CLAIMED = {
              "aliases and single-valued options, composed through the API, their text read by the extracted statement reader "
              "(Pg/Stmt.v) and compared with the intended clause tree; (B) reflection-generated and grammar-shaped API programs, "
              "clause tree from the builder records vs reading of the text, every nested statement included; byte-exact model "
-             "correspondence on all of them; all four option combinations.",
+             "correspondence on all of them; all four option combinations. C01_api_*: laws of the functional model of the "
+             "builder methods (Model/Api.v) - WHERE/HAVING accumulate in call order and change nothing else, last call of "
+             "LIMIT/OFFSET wins, independent options commute, an alias goes to the FROM item added last; (C) that model is "
+             "compared call by call (all fields) with the implementation on reflection-driven histories from the entry points.",
         note="Partial: that the separators are the grammar's keywords for the slot and that part texts do not disturb the clause "
-             "structure is evaluated by the reader on every case, not proved; last-call-wins / alias attachment are API-level "
-             "and checked by (A) only; the reader is a hand-written formalisation of gram.y at clause level. D4/D5/D6 and the "
+             "structure is evaluated by the reader on every case, not proved; the API model omits ApplyIf, ApplySelectJson, "
+             "AppendWith and the WITH builders (those are covered by (A) only); the reader is a hand-written formalisation of gram.y at clause level. D4/D5/D6 and the "
              "D7 sites in condition lists are recorded findings, not repaired.",
         ref="DESIGN.md §6 C01"),
     "C02": dict(
@@ -239,15 +242,19 @@ CLAIMED = {
              "implementation output; the theorem is at chunk level.",
         ref="DESIGN.md §6 C15"),
     "C20": dict(
-        technique="Coq proof (well-formed values have no panic site; run is total) + type-directed generation with recover()",
+        technique="Coq proof (well-formed values have no panic site; run is total; every value reachable through the modelled builder API is well-formed) + call-by-call correspondence of the API model + type-directed generation with recover()",
         text="C20_no_panic: every value satisfying wfe (no nil interface where the renderer calls a method, a plain grouping "
              "element has a set, an INSERT query is a select) renders normally under every option combination and "
              "supplied map; termination is structural (compile and run are structurally recursive Coq functions over "
              "finite values). Tie: reflection-driven composition of every exported constructor/method incl. incomplete "
              "statements; recover() around ToSQL; every generated value is checked to satisfy wfe and to render "
-             "identically in the model.",
-        note="Partial: reachable => wfe is checked on generated values (proved only for the part of the API modelled in "
-             "coq/Model/Api*.v); Go runtime stack exhaustion / allocation failure not modelled.",
+             "identically in the model. C20_builder_call_preserves_wf / C20_reachable_no_panic: every statement reachable "
+             "from Select / InsertInto / Update / DeleteFrom by any number of modelled builder calls with well-formed "
+             "arguments is well-formed, hence renders without panic; the API model (Model/Api.v) is compared call by call "
+             "with the implementation, and no recorded call meeting the hypotheses yields a value whose rendering panics.",
+        note="Partial: for expression constructors (fn package, operators) reachable => wfe is checked on generated values only; "
+             "ApplyIf, ApplySelectJson, AppendWith and the WITH builders are not in the API model; Go runtime stack exhaustion / "
+             "allocation failure not modelled.",
         ref="DESIGN.md §6 C20"),
 }
 
